@@ -88,7 +88,7 @@ def install_fs(eng, fs_holder):
         return FileObj(fs(), path, mode)
 
     eng.native_handlers[open] = open_
-    osm = types.SimpleNamespace()
+    osm = env.ModelNS()
 
     def replace(a, b):
         f = fs()
@@ -119,7 +119,7 @@ def install_fs(eng, fs_holder):
             sym.Unsupported('os.fdopen of a real descriptor'))
     osm.O_WRONLY, osm.O_CREAT, osm.O_EXCL = 1, 64, 128
     eng.native_modules['os'] = osm
-    tf = types.SimpleNamespace()
+    tf = env.ModelNS()
 
     def mkstemp(suffix='', prefix='tmp', dir=None, text=False):
         name = real_os.path.join(dir or '/tmp', prefix + 'XXXX' + suffix)
@@ -334,6 +334,11 @@ def contracts(tier):
                        run_main_interrupt, setup=setup_main, assumptions=A))
     cs.append(Contract('C06/static', ['ddsmt.tmpfiles.init'], run_static,
                        assumptions=A))
+    # "after an interrupt it holds the last accepted input": at every point
+    # of the strategies' result loops what was last written is the current
+    # input (invariant conjuncts labelled C01+C06 in contracts/strategies.py)
+    from . import strategies
+    cs += strategies.all_contracts(tier)
     return cs
 
 
